@@ -61,10 +61,21 @@ items += [
 ]
 UNIT = {
     'unit': 'decode', 'backend': 'verus',
+    'tier': 'thorough',        # the per-form table of try_from is one verification condition of ~7 min (rlimit 2000)
     'uses': ['use vstd::std_specs::cmp::{PartialEqSpec, PartialEqSpecImpl};'],
     'prelude': ['verus/decode_spec.rs'],
-    'rlimit': 300,
-    'verus_flags': ['--multiple-errors', '4'],
+    'rlimit': 2000,
+    'verus_flags': ['--multiple-errors', '2'],
+    'verus_timeout': 3000,
     'items': items, 'functions': [], 'obligations': [],
+    'known_finding_witnesses': [{'properties': ['C08'], 'carve': 'sgez', 'recipe': ['decode-finding', 'sgez']}],
 }
-mk.make(UNIT, {}, {}, default=['C08'])
+TEXTS = {
+    ('try_from', 'table'): 'for every token stream whose first token is a mnemonic: if a node is returned it means what the manual assigns to the operand tokens '
+                           '(one line per mnemonic / operand form in contracts/verus/decode_spec.rs::official; pseudo-instructions against the meaning of their '
+                           'official expansion, reading x0 = reading 0); carve-outs: auipc, sgez; lui: shape only',
+    ('Type::from', 'table'): 'the mnemonic -> instruction format table agrees with the manual for all 110 mnemonics',
+    'stream': 'reads exactly the next item of the token stream and interprets it as the operand kind asked for',
+    'post': 'builds exactly the node / value it is given',
+}
+mk.make(UNIT, {'try_from': ['C08', 'C17']}, TEXTS, default=['C08'], search=['decode-search'])
